@@ -13,6 +13,7 @@ GEOM = {
     # non-centred, non-collinear water-like geometry + a diatomic with a padding slot holding junk coordinates
     "padded": ([[8, 1, 1], [1, 1, 0]], [[[0.5, 0.25, 0.0], [1.5, 0.25, 0.125], [0.25, 1.25, -0.25]], [[2.0, 1.0, 0.5], [2.75, 1.0, 0.5], [7.0, -3.0, 1.0]]]),
     "single": ([[8, 1, 1]], [[[0.5, 0.25, 0.0], [1.5, 0.25, 0.125], [0.25, 1.25, -0.25]]]),
+    "shifted": ([[8, 6, 1, 1], [8, 1, 1, 0]], [[[10.0, -4.0, 2.0], [11.25, -4.0, 2.0], [9.5, -3.0, 2.5], [9.5, -5.0, 1.75]], [[-3.0, 0.5, 0.25], [-2.0, 0.5, 0.25], [-3.25, 1.5, 0.0], [0.0, 0.0, 0.0]]]),
 }
 
 
@@ -112,7 +113,7 @@ def ob_a(ob):
     ob.bound("concrete rational geometries (water-like, centre of mass off the origin; batch with a diatomic and a padding slot holding junk coordinates), table masses; all velocity components symbolic reals with padding velocities 0; paths with non-vanishing kinetic energy")
     ob.assume("torch.linalg.pinv replaced by the exact rational Moore-Penrose inverse of the (concrete) inertia tensor; sqrt as auxiliary variable")
     _pinv_stub()
-    for key in ("padded",):
+    for key in (("padded",) if ob.tier == "quick" else ("padded", "single", "shifted")):
         for angular in (True, False):
             species, coords = GEOM[key]
             S.reset()
@@ -164,9 +165,10 @@ def ob_a(ob):
                         v, m = smt.prove(c, base, lab, "nra", 90)
                         if v == "sat":
                             if replay_zero_com(key, angular)[kind]:
-                                ob.violation("_zero_com(remove_angular=%s): '%s' fails for molecule %d of the padded batch" % (angular, name, b), {"module": "harness.C13", "func": "replay_zero_com_kind", "args": {"key": key, "angular": angular, "kind": kind}})
+                                ob.violation("_zero_com(remove_angular=%s): '%s' fails for molecule %d of the batch '%s'" % (angular, name, b, key), {"module": "harness.C13", "func": "replay_zero_com_kind", "args": {"key": key, "angular": angular, "kind": kind}})
                             else:
                                 raise HarnessError("_zero_com counterexample did not reproduce: %s" % lab)
+                            break  # one replayed violation per molecule and mode is enough (the remaining queries get slow on broken code)
                         else:
                             ob.verdict(v, lab)
             ob.sample({"angular": angular, "paths": ex.paths})
